@@ -208,8 +208,14 @@ def positions_mapping_table(ctx, F):
     mp = Prov(m)
     pr = m.calls_to("FoldFSM::prepare")
     ok = len(pr) == 1
+    callee = F.fns.get(pr[0].cid) if ok else None
+    ok = ok and callee is not None
     if ok:
-        a = [mp.operand(x) for x in pr[0].args]
+        # arguments are located by the callee's parameter names (a private method's parameter order is not part of any contract)
+        names = [callee.names.get(i + 1) for i in range(len(pr[0].args))]
+        ok = "prev_lore" in names and "current_lore" in names
+    if ok:
+        a = [None, mp.operand(pr[0].args[names.index("prev_lore")]), mp.operand(pr[0].args[names.index("current_lore")])]
         def lore_ok(e, posmap, fold):
             cl = [x for x in walk(e) if x[0] == "closure"]
             return lib.mentions_field(e, posmap) and any(lib.mentions_field(u, fold) for x in cl for u in x[2])
